@@ -287,6 +287,22 @@ func (in *Interp) Persist(seg segment.Segment) ([]byte, error) {
 		in.fail("C04", "WriteTo returned %d but wrote %d bytes", n, buf.Len())
 		in.fail("C11", "WriteTo returned %d but wrote %d bytes", n, buf.Len())
 	}
+	// the returned count must be what was written also when the destination gives up
+	// inside the footer: a reported success with fewer bytes written is a wrong count
+	total := buf.Len()
+	for _, off := range []int{total - 44, total - 17, total - 1} {
+		if off < 0 {
+			continue
+		}
+		fw := &failAt{k: off}
+		n2, err2 := seg.WriteTo(fw, nil)
+		if err2 == nil && int(n2) != fw.written {
+			in.fail("C04", "WriteTo reported success and %d bytes although the writer accepted only %d", n2, fw.written)
+			in.fail("C11", "WriteTo reported success and %d bytes although the writer accepted only %d", n2, fw.written)
+			break
+		}
+	}
+	in.Touched["persist_tail_faults"]++
 	return buf.Bytes(), nil
 }
 
@@ -375,6 +391,16 @@ func (in *Interp) RunOp(o *Op) (out W) {
 		}
 		if n != uint64(buf.Len()) {
 			in.fail("C11", "merge returned %d but wrote %d bytes", n, buf.Len())
+		}
+		if o.CM == 1025 { // Merger.WriteTo: success must not be reported when the tail of the file is lost
+			for _, off := range []int{buf.Len() - 44, buf.Len() - 1} {
+				fw := &failAt{k: off}
+				n2, err2 := in.Impl.Merger(segs, drops, 64).WriteTo(fw, nil)
+				if err2 == nil && int(n2) != fw.written {
+					in.fail("C11", "Merger.WriteTo reported success and %d bytes although the writer accepted only %d", n2, fw.written)
+					break
+				}
+			}
 		}
 		b := append([]byte(nil), buf.Bytes()...)
 		seg, err := in.Impl.Load(segment.NewDataBytes(b))
